@@ -24,6 +24,8 @@ static char name[128];
 static int gen;
 static int owner[MAXH];    /* the handle unlinks the name when freed: the creating handle, and any handle after `own` */
 
+static PShmBuffer *grave[64]; static int ngrave;   /* `abandon`: handles whose holder is gone without freeing them (a killed process) */
+
 static int nopen (void) { int n = 0; for (int i = 0; i < MAXH; ++i) if (hs[i]) ++n; return n; }
 
 /* caller memory for lengths far beyond any capacity: address space only (never touched unless the library does) */
@@ -60,6 +62,7 @@ static void drop_all (void) {
 		p_shm_free (spy); spy = NULL;
 	}
 	for (int i = 0; i < MAXH; ++i) if (hs[i]) { p_shm_buffer_free (hs[i]); hs[i] = NULL; }
+	while (ngrave) p_shm_buffer_free (grave[--ngrave]);      /* last: their unlink finds nothing any more */
 	fflush (stdout);
 	if (save >= 0) { dup2 (save, 1); close (save); }
 }
@@ -221,6 +224,8 @@ int main (void) {
 		} else if (!strcmp (op, "close") && n == 2 && h < MAXH && hs[h] && (!owner[h] || nopen () == 1)) {
 			if (owner[h] && spy) { p_shm_free (spy); spy = NULL; }      /* the name goes away with its last handle, an owner */
 			p_shm_buffer_free (hs[h]); hs[h] = NULL; owner[h] = 0; puts ("ok");
+		} else if (!strcmp (op, "abandon") && n == 2 && h < MAXH && hs[h] && ngrave < 64) {
+			grave[ngrave++] = hs[h]; hs[h] = NULL; owner[h] = 0; puts ("ok");
 		} else if (!strcmp (op, "wz") && n == 3 && h < MAXH && hs[h]) {
 			size_t len = strtoull (arg, NULL, 10);
 			unsigned char *b = len > BIG ? big_alloc (len) : calloc (len ? len : 1, 1);
